@@ -202,9 +202,9 @@ PROPS = {
         "assumptions": [],
     },
     "C04": {
-        "claim": "Bounded model checking (SAT) of the real quant/restrict/apply_quant code: results equal the iterated cofactor combination computed on truth tables, for every diagram, variable cube and oracle content within the bound.",
+        "claim": "Bounded model checking (SAT) of the real quantification code: forall/exists/unique (BDD, BCDD), apply_forall/exists/unique (BDD: general recursion step for a representative set of inner operators; BDD and BCDD: the terminal-case delegation to the plain quantifiers) and substitute with the top-most variable replaced return exactly the iterated cofactor combination computed on truth tables, for every diagram, variable cube and oracle content within the bound. restrict, the general BCDD apply_quant step and substitution of lower variables could not be encoded and are outside the claim.",
         "bounds": STEP_BOUNDS + "; variable sets / literal cubes are arbitrary cube edges", "note": STEP_NOTE,
-        "outside": "substitution-id reuse across gc in the real manager",
+        "outside": "restrict (cube walk recurses outside the cache: infeasible), general BCDD apply_quant step (> 44 GB), substitute of lower variables, substitution-id reuse across gc in the real manager",
         "assumptions": ["quant_spec/restrict_spec are the textbook definitions on truth tables"],
     },
     "C05": {
